@@ -146,8 +146,8 @@ theorem vote_payload {T : List LEv} {a : Node} (hT : GInv T a)
 
 /-- **every atomic block of a correct node's handling of an admissible, filtered event keeps the
 node's tie to the global history and extends a valid history by a justified statement** -/
-theorem blk_net (hwf : WF C) {e : Event} {i : Nat} {a b : Node} {l : List Out} {g : List LEv} {T : List LEv} {H : List Ev}
-    (hb : Blk e a b l g) (hhon : C.honest i = true) (hmem : ∃ m ∈ C.ms, m.id = i)
+theorem blk_net (hwf : WF C) {e : Event} {spi0 : List Spi} {i : Nat} {a b : Node} {l : List Out} {g : List LEv} {T : List LEv} {H : List Ev}
+    (hb : Blk e spi0 a b l g) (hhon : C.honest i = true) (hmem : ∃ m ∈ C.ms, m.id = i)
     (hgate : Gate (C.cfg i) e) (hae : AdmEvent C H e)
     (hc : Core C H i a T) (hv : Valid (setting C hwf) H) (hua : Univ a) (hub : Univ b) :
     Core C ((g.map (lift i)).reverse ++ H) i b (g.reverse ++ T)
@@ -204,7 +204,7 @@ theorem blk_net (hwf : WF C) {e : Event} {i : Nat} {a b : Node} {l : List Out} {
         rcases mem_storeVC hx with hx | rfl
         · exact hc.ownvc x hx hmine
         · exact absurd hmine hnotmine
-  | accept ppm f rcpt hh hv' hnone hnl hlock hsrc =>
+  | accept ppm f rcpt hh hv' hnone hnl hlock hsrc hval =>
     have hsub : ∀ x ∈ H, x ∈ Ev.acc i ppm.c.header.view ppm.c.header.hash :: H := fun _ h => List.mem_cons_of_mem _ h
     constructor
     · refine core_step hc rfl hg (sees_cons hc.sees _) (fun _ h => List.mem_cons_of_mem _ h) ?_ ?_ ?_
@@ -288,7 +288,7 @@ theorem blk_net (hwf : WF C) {e : Event} {i : Nat} {a b : Node} {l : List Out} {
       refine ⟨v, ?_⟩
       rw [hcs, commitHash_getCommits _ _ _ _ hne]
       exact commitQuorum_of_store C hwf H i a hc.cfg hua.commits hua.clean hc.adm h v hash hcq
-  | propose ppm f o hh hv' hnone hlnv hf ho hown hsrc =>
+  | propose ppm f o hh hv' hnone hlnv hf ho hown hsrc hreq hblk hmsg =>
     have hsub : ∀ x ∈ H, x ∈ Ev.acc i ppm.c.header.view ppm.c.header.hash :: H := fun _ h => List.mem_cons_of_mem _ h
     constructor
     · refine core_step hc rfl hg (sees_cons hc.sees _) (fun _ h => List.mem_cons_of_mem _ h) ?_ (storePP_vcs _ _)
@@ -311,7 +311,7 @@ theorem blk_net (hwf : WF C) {e : Event} {i : Nat} {a b : Node} {l : List Out} {
         exact ⟨o1, fun p hp => let ⟨q1, q2, q3⟩ := o2 p hp; ⟨q1, q2, mem_H_of_T hc.sees q3⟩⟩
       have := newViewJust_of_elected C hwf H hv i hhon hmem a hc.cfg hua.vcs hua.clean hc.adm hc.vcb hown'' ppm.c.header.hash hel
       rw [hv']; exact this
-  | voteSend vc rcpt hv' hp hpv =>
+  | voteSend vc rcpt hv' hp hpv hown =>
     constructor
     · exact core_step hc rfl hg (sees_cons hc.sees _) (fun _ h => List.mem_cons_of_mem _ h)
         (hc.adm.mono (fun _ h => List.mem_cons_of_mem _ h)) rfl hc.prepBlock
@@ -355,5 +355,164 @@ theorem blk_net (hwf : WF C) {e : Event} {i : Nat} {a b : Node} {l : List Out} {
             · rw [e1, hv']; exact hpv pv hprep
             · rw [e1, e2]; exact List.mem_cons_of_mem _ hcom
     · exact .cons hv (C01Local.justified_of_local _ i H T _ hSees (localJ_of_valid_cons hg.valid) trivial)
+
+/-! ## whatever a correct member sends is admissible -/
+
+/-- **every message an atomic block sends is admissible with respect to the history after the block**:
+the member's own signatures in it cover statements the block has just made (or made earlier), and
+every other signature in it was admissible when it was logged — so the network model never forbids
+delivering a correct member's message to another correct member -/
+theorem blk_sends_adm (hwf : WF C) {e : Event} {spi0 : List Spi} {i : Nat} {a b : Node} {l : List Out} {g : List LEv} {T : List LEv} {H : List Ev}
+    (hb : Blk e spi0 a b l g) (hc : Core C H i a T) (hua : Univ a) :
+    ∀ rcpt m, Out.send rcpt m ∈ l → AdmMsg C ((g.map (lift i)).reverse ++ H) m := by
+  have hme : a.cfg.me = i := by rw [hc.cfg]; rfl
+  intro rcpt m hm
+  cases hb with
+  | quiet hq hs hl =>
+    have := hl _ hm
+    cases m <;> simp [stmtOf] at this
+  | log op he => cases hm
+  | accept ppm f rcpt' hh hv' hnone hnl hlock hsrc hval =>
+    simp only [List.mem_singleton, Out.send.injEq] at hm
+    obtain ⟨_, rfl⟩ := hm
+    intro _ _
+    refine ⟨fun _ _ _ => ?_, fun hc' => absurd hc' tP_ne_tC⟩
+    show Ev.acc (mySig a.cfg).id _ _ ∈ _
+    rw [mySig_id, hme]; exact List.mem_cons_self ..
+  | prepared v hash rcpt' hv' hnot hpp hproof =>
+    simp only [List.mem_singleton, Out.send.injEq] at hm
+    obtain ⟨_, rfl⟩ := hm
+    intro _ _
+    refine ⟨fun ht => ?_, fun _ _ _ => ?_⟩
+    · rcases ht with ht | ht
+      · exact absurd ht.symm tPP_ne_tC
+      · exact absurd ht.symm tP_ne_tC
+    · left
+      show Ev.com (mySig a.cfg).id _ _ ∈ _
+      rw [mySig_id, hme]; exact List.mem_cons_self ..
+  | late h v hash rcpt' hq =>
+    simp only [List.mem_singleton, Out.send.injEq] at hm
+    obtain ⟨_, rfl⟩ := hm
+    intro _ _
+    refine ⟨fun ht => ?_, fun _ _ _ => ?_⟩
+    · rcases ht with ht | ht
+      · exact absurd ht.symm tPP_ne_tC
+      · exact absurd ht.symm tP_ne_tC
+    · right
+      show Ev.lcom (mySig a.cfg).id _ _ ∈ _
+      rw [mySig_id, hme]; exact List.mem_cons_self ..
+  | decide blk cs h v hash hq hs hcs hcq hpp => simp at hm
+  | propose ppm f o hh hv' hnone hlnv hf ho hown hsrc hreq hblk hmsg =>
+    simp only [List.mem_singleton] at hm
+    have hownAdm : AdmRef C (Ev.acc i ppm.c.header.view ppm.c.header.hash :: H) ppm.c.header ppm.c.sender := by
+      intro _ _
+      refine ⟨fun _ _ _ => ?_, fun hc' => ?_⟩
+      · show Ev.acc ppm.c.sender.id _ _ ∈ _
+        rw [hown.1, mySig_id, hme]; exact List.mem_cons_self ..
+      · rw [hown.2.2] at hc'; exact absurd hc' tPP_ne_tC
+    rcases hmsg with ⟨r', ho'⟩ | ⟨r', nvm, h', ho', hpp, hvotes⟩
+    · rw [ho'] at hm
+      simp only [Out.send.injEq] at hm
+      obtain ⟨_, rfl⟩ := hm
+      exact hownAdm
+    · rw [ho'] at hm
+      simp only [Out.send.injEq] at hm
+      obtain ⟨_, rfl⟩ := hm
+      refine ⟨by rw [hpp]; exact hownAdm, ?_⟩
+      intro c hcm
+      rw [hvotes, List.mem_map] at hcm
+      obtain ⟨x, hx, rfl⟩ := hcm
+      unfold Store.getVCs at hx
+      rw [List.mem_filter] at hx
+      exact (hc.adm.vcs x hx.1).mono (fun _ h => List.mem_cons_of_mem _ h)
+  | voteSend vc rcpt' hv' hp hpv hown =>
+    simp only [List.mem_singleton, Out.send.injEq] at hm
+    obtain ⟨_, rfl⟩ := hm
+    constructor
+    · intro _ _ _ _ _
+      show Ev.vote vc.c.sender.id vc.c.header.view _ ∈ _
+      rw [hown.1, mySig_id, hme, hv']; exact List.mem_cons_self ..
+    · intro p hpp
+      rcases vote_payload hc.ginv hc.prepBlock with ⟨_, hn, _⟩ | ⟨pv, p', b', ppm, _, hx, hs, _⟩
+      · rw [hp, hn] at hpp; cases hpp
+      · rw [hp, hs] at hpp
+        have : p' = p := Option.some.inj hpp
+        subst this
+        exact (extractProof_adm C H i a hc.cfg hua.proposals hua.prepares hua.clean hc.adm pv p' b' hx).mono
+          (fun _ h => List.mem_cons_of_mem _ h)
+  | voteStore vc hv' hp hown hpv hbk => cases hm
+
+/-! ## where an accepted hash comes from -/
+
+/-- the hash of the proposal a delivery carries -/
+def evPropHash : Event → Option Nat
+  | .deliver (.preprepare m) => some m.c.header.hash
+  | .deliver (.newView m) => some m.pp.header.hash
+  | _ => none
+
+/-- the consumer of the member taking a step approved hash `h` in that step: the step's SPI answers
+begin with a positive `ValidateBlockProposal` verdict and the delivered message proposes `h`, or they
+begin with the block its own `RequestNewBlockProposal` returned, whose hash is `h` -/
+def ApprovedStep (e : Event) (spi : List Spi) (h : Nat) : Prop :=
+  (∃ cd rest, spi = Spi.verdict true cd :: rest ∧ evPropHash e = some h)
+  ∨ (∃ b cd rest, spi = Spi.proposal b cd :: rest ∧ b.hash = h)
+
+/-- **an accepted hash was approved by the accepting member's own consumer in this very step, or was
+certified in an earlier view** -/
+theorem blk_origin (hwf : WF C) {e : Event} {spi0 : List Spi} {i : Nat} {a b : Node} {l : List Out} {g : List LEv} {T : List LEv} {H : List Ev}
+    (hb : Blk e spi0 a b l g) (hgate : Gate (C.cfg i) e) (hae : AdmEvent C H e)
+    (hc : Core C H i a T) (hv : Valid (setting C hwf) H) (hua : Univ a) :
+    ∀ v h f, LEv.acc v h f ∈ g → ApprovedStep e spi0 h ∨ Locked (setting C hwf) H v h := by
+  intro v h f hm
+  cases hb with
+  | quiet hq hs hl => cases hm
+  | log op he => cases hm
+  | prepared v' hash rcpt hv' hnot hpp hproof => simp at hm
+  | late h' v' hash rcpt hq => simp at hm
+  | decide blk cs h' v' hash hq hs hcs hcq hpp => simp at hm
+  | voteSend vc rcpt hv' hp hpv hown => simp at hm
+  | voteStore vc hv' hp hown hpv hbk => simp at hm
+  | accept ppm f' rcpt hh hv' hnone hnl hlock hsrc hval =>
+    simp only [List.mem_singleton, LEv.acc.injEq] at hm
+    obtain ⟨rfl, rfl, rfl⟩ := hm
+    rcases hsrc with ⟨he, hf⟩ | ⟨nvm, he, hppm, hf, hchk⟩
+    · obtain ⟨cd, rest, hspi⟩ := hval (Or.inl hf)
+      left; left
+      exact ⟨cd, rest, hspi, by rw [he]; rfl⟩
+    · cases hlv : latestVote nvm.header.votes with
+      | none =>
+        obtain ⟨cd, rest, hspi⟩ := hval (Or.inr ⟨nvm, he, hlv⟩)
+        left; left
+        exact ⟨cd, rest, hspi, by rw [he, hppm]; rfl⟩
+      | some lv =>
+        right
+        subst he
+        rw [hc.cfg] at hchk
+        have := locked_of_checked C hwf H i nvm hchk hae.2 lv hlv
+        rw [hppm]
+        show Locked _ H nvm.pp.header.view nvm.pp.header.hash
+        rw [hchk.2.1]; exact this
+  | propose ppm f' o hh hv' hnone hlnv hf ho hown hsrc hreq hblk hmsg =>
+    simp only [List.mem_singleton, LEv.acc.injEq] at hm
+    obtain ⟨rfl, rfl, rfl⟩ := hm
+    cases f with
+    | false =>
+      obtain ⟨b', cd, rest, hspi, hh'⟩ := hreq rfl
+      left; right
+      exact ⟨b', cd, rest, hspi, hh'.symm⟩
+    | true =>
+      obtain ⟨h', _, hcase⟩ := hsrc rfl
+      rcases hcase with ⟨b', hsome⟩ | ⟨_, b', cd, rest, hspi, hh'⟩
+      · right
+        have hown'' : ∀ m ∈ a.store.vcs, m.c.sender = mySig a.cfg → m.c.header.mtype = tVC ∧
+            ∀ p, m.c.header.proof = some p → p.pRef.hash = p.ppRef.hash ∧ p.ppRef.view < m.c.header.view
+              ∧ Ev.com i p.ppRef.view p.ppRef.hash ∈ H := by
+          intro m hm hmine
+          obtain ⟨o1, o2⟩ := hc.ownvc m hm hmine
+          exact ⟨o1, fun p hp => let ⟨q1, q2, q3⟩ := o2 p hp; ⟨q1, q2, mem_H_of_T hc.sees q3⟩⟩
+        have := locked_of_elected C hwf H hv i a hc.cfg hua.vcs hc.adm hc.vcb hown'' h' b' ppm.c.header.hash hsome
+        rw [hv']; exact this
+      · left; right
+        exact ⟨b', cd, rest, hspi, hh'.symm⟩
 
 end LeanHelix.Net
